@@ -64,7 +64,7 @@ class C20:
               'listing_order_non_sorted', 'locale_cannot_encode', 'relative_path_via_virtual_cwd', 'roundtrip_checked', 'actor_unlink',
               'interrupt_delivered', 'load_equal_checked', 'dump_equal_checked', 'converter_equal_checked', 'bom_input', 'crlf_input',
               'flipped_byte_input', 'rerun_after_fault_exact', 'edited_in_place_same_size', 'big_input_over_24k', 'output_is_the_input_file', 'blank_line_in_input', 'dumped_a_loaded_document', 'output_directory_removed_externally',
-              'non_nfc_input', 'stdout_cannot_encode_progress_line', 'header_only_input', 'input_of_exactly_one_buffer']
+              'non_nfc_input', 'stdout_cannot_encode_progress_line', 'header_only_input', 'input_of_exactly_one_buffer', 'cell_over_csv_field_limit', 'dir_mode_with_output_path']
 
     # ================================================================ plan
     def gen_plan(self, seed, index, tier):
@@ -102,7 +102,7 @@ class C20:
             if stem_key in used:
                 continue        # two inputs with one stem in one directory would convert onto the same output file
             used.add(stem_key)
-            kind = seeds.weighted(rng, [('kern', 8), ('garbage', 0.7), ('with_error', 0.9), ('empty', 0.3), ('big', 0.5), ('block_edge', 0.5), ('header_only', 0.3)])
+            kind = seeds.weighted(rng, [('kern', 8), ('garbage', 0.7), ('with_error', 0.9), ('empty', 0.3), ('big', 0.5), ('block_edge', 0.5), ('header_only', 0.3), ('huge_cell', 0.25)])
             di = rng.randrange(ndocs)
             eol = seeds.weighted(rng, [('\n', 5), ('\r\n', 3), ('mixed', 1), ('\r', 0.7)])
             op = {'op': 'put', 'path': path, 'doc': di, 'kind': kind, 'eol': eol, 'final_newline': rng.random() < 0.75, 'bom': rng.random() < 0.06,
@@ -180,6 +180,9 @@ class C20:
                 ops.append({'op': 'cli', 'mode': mode, 'input': as_given(posixpath.join(WORK, d)) if d else as_given(WORK) if cwd != WORK else WORK,
                             'output': None, 'recursive': rng.random() < 0.55, 'verbose': rng.choice([1, 1, 0]), 'premkdir': False,
                             'prefill': rng.random() < 0.25})
+                if rng.random() < 0.2:
+                    # --output_path given in directory mode: it is not used there (every output goes next to its input)
+                    ops[-1]['output'] = as_given(posixpath.join(WORK, rng.choice(['out', 'conv', 'in']), 'dirout' + str(len(ops)) + ('.ekrn' if mode == 'k2e' else '.krn')))
             elif kind == 'roundtrip' and kern_inputs:
                 src = rng.choice(kern_inputs)
                 ops.append({'op': 'roundtrip', 'in': src, 'tag': 'rt' + str(len(ops)), 'via': rng.choice(['cli', 'func'])})
@@ -307,6 +310,11 @@ class C20:
                 text = 'this is not\ta kern file\nat all\tx\ty\n'
             else:
                 lines = d.lines()
+                if op['kind'] == 'huge_cell':
+                    # boundary: one cell longer than csv's default field limit (131072 characters) - both readers must treat it
+                    # alike, whatever either of them does with it, and whichever of them ran first in this process
+                    lines = ['!!!OTL: ' + 'la' * 65600] + lines
+                    bump(probes, 'cell_over_csv_field_limit')
                 if op['kind'] == 'header_only':
                     # boundary: nothing but the header row (and, for every second path length, the terminators)
                     lines = lines[:1] + (['\t'.join('*-' for _ in d.headers)] if len(op['path']) % 2 else [])
@@ -560,6 +568,9 @@ class C20:
                     p = absolute(op['path'])
                     arg = Path(op['path']) if op['pathtype'] == 'Path' else op['path']
                     data = fs.get(p)
+                    # the reference FIRST: if the file reader changes a process-wide setting, the string reader must not have
+                    # been helped by it when it gives the reference answer
+                    ref = ref_load(data, op['raise_on_errors']) if data is not None else None
                     try:
                         if op.get('deprecated_api'):
                             d, e = kp.read(arg, strict=op['raise_on_errors'])        # deprecated alias of load
@@ -575,7 +586,6 @@ class C20:
                         if got != ('exc', exp_cls) and not faulted:
                             add_v('load-differs', 'load-differs/missing-file', exp_cls, got[1] if got[0] == 'exc' else 'returned a document')
                     else:
-                        ref = ref_load(data, op['raise_on_errors'])
                         gv = doc_value(got[1], got[2]) if got[0] == 'ok' else got[1]
                         rv = doc_value(ref[1], ref[2]) if ref[0] == 'ok' else ref[1]
                         log.emit('client', 'load', op['path'], digest_of(gv))
@@ -760,6 +770,8 @@ class C20:
             frame_check(before, {out}, 'cli-single', set())
             return
         # ---- directory mode
+        if op.get('output'):
+            bump(probes, 'dir_mode_with_output_path')
         inputs = self._matching(fs, inp, in_suffixes, op.get('recursive'))
         nested = self._matching(fs, inp, in_suffixes, True)
         if not op.get('recursive') and len(nested) > len(inputs):
